@@ -1025,6 +1025,12 @@ impl<'a, 'b> GeneratorState<'a> {
                             Some((cl, _, _)) => cl.clone(),
                         }
                     };
+                    // A switch outside any loop has no continue label (see generate_continue)
+                    if cont_label.is_empty() {
+                        return Err(self
+                            .compiler_state
+                            .syntax_error("Continue statement outside loop", pos));
+                    }
                     self.generate_condition(condition, pos, false, &cont_label, false)?;
                     self.loops.last_mut().unwrap().2 = true;
                 }
